@@ -615,6 +615,16 @@ func ruleDistTableOwnAncestry(r *Run) {
 							}
 						}
 					}
+					// a helper handed the ancestry that starts at the version: table of anc, stored under anc[0]
+					if prm, isP := arg.(*ssa.Parameter); isP {
+						if u, isU := key.(*ssa.UnOp); isU {
+							if ia, isIA := u.X.(*ssa.IndexAddr); isIA && ia.X == ssa.Value(prm) {
+								if k0, isK := constInt(ia.Index); isK && k0 == 0 {
+									okArg = true
+								}
+							}
+						}
+					}
 					if !okArg {
 						good, why = false, "the ancestry given to getDistFromRoot does not start at the version the entry is stored under"
 					}
